@@ -274,8 +274,30 @@ def simplePath (u : Str) : Str := stripParams (rawPath u)
 def simplePqf (u : Str) : Bool :=
   u.any (fun c => c = '?' || c = '#') || lastSegHasSemi (rawPath u) false
 
+/-- split `scheme://authority` from the path: everything before the third `/` and the rest (with that `/`) -/
+def splitRoot : Nat → Str → Str × Str
+  | _, [] => ([], [])
+  | n, c :: cs =>
+    if c = '/' then
+      (if n = 0 then ([], c :: cs) else let r := splitRoot (n - 1) cs; (c :: r.1, r.2))
+    else let r := splitRoot n cs; (c :: r.1, r.2)
+
+/-- directory part of a path: up to and including its last `/` (`/` for an empty path) -/
+def dirOf (path : Str) : Str :=
+  match (path.reverse.dropWhile (· ≠ '/')).reverse with
+  | [] => ['/']
+  | d => d
+
+/-- `urljoin(base, ref)` for a base `scheme://authority[/path]` without query/fragment and a reference that is a
+    path: an absolute path replaces the base path, a relative one is merged with its directory (RFC 3986 §5.2.2-3;
+    no dot segments occur in the references the code builds) -/
+def simpleJoin (a p : Str) : Str :=
+  match p with
+  | '/' :: _ => (splitRoot 2 a).1 ++ p
+  | _ => (splitRoot 2 a).1 ++ dirOf (splitRoot 2 a).2 ++ p
+
 def simpleUrl : UrlOps where
-  join := fun a p => a ++ p
+  join := simpleJoin
   path := simplePath
   pqf := simplePqf
 
